@@ -1399,6 +1399,10 @@ def _setitem(a, key, value):
     if buf.kind == "b" and val_kind != "b":
         raise OutOfSubset("assigning non-bool to bool array")
     def conv(t):
+        if buf.kind in "iu" and buf.elem == "real" and val_kind == "f":
+            # an INTEGER array whose elements are embedded in the reals (integer labels): NumPy truncates a float stored into it
+            t = sym._toreal(to_z3(t))
+            return z3.ToReal(z3.If(t >= 0, z3.ToInt(t), -z3.ToInt(-t)))
         if buf.elem == "real" and z3.is_expr(t) and z3.is_int(t):
             return sym._toreal(t)
         if buf.elem == "real" and isinstance(t, (int, float)) and not isinstance(t, bool):
